@@ -178,8 +178,10 @@ impl Tunnel {
                         return;
                     }
                     (Err(e), ..) => {
+                        // credentials that cannot be read are an authentication failure (407 with
+                        // a challenge), not a gateway failure
                         log_id!(debug, request_id, "Failed to get auth info: {}", e);
-                        request.fail_request(ConnectionError::Io(e));
+                        request.fail_request(ConnectionError::Authentication(e.to_string()));
                         return;
                     }
                 };
